@@ -12,6 +12,7 @@
 import Resonate.Proofs.SysInv
 import Resonate.Proofs.SysDb
 import Resonate.Proofs.AllYieldsK
+import Resonate.Proofs.Responds
 import Resonate.Properties.C06
 namespace Resonate
 open Coro SqlSpec
@@ -197,12 +198,10 @@ theorem dispOf_spec (tid : String) : ∀ (subs : List Subm) (b : Nat) (e : SubId
 
 /-! ### threads -/
 
-def noResp : String := "request coroutine returned no response"
-
-/-- an assertion event (the one event a request coroutine that finishes without a response produces is kept apart:
-    it is excluded separately, by `Responds`) -/
+/-- an assertion event: a `util.Assert` / nil dereference site reached by a coroutine, or a request coroutine that
+    finished without a response -/
 def Event.isAssert : Event → Bool
-  | .panic _ site => site != noResp
+  | .panic _ _ => true
   | _ => false
 
 /-- what never changes in the life of a thread: whenever it is restarted it is a coroutine without reachable assertion
@@ -210,10 +209,12 @@ def Event.isAssert : Event → Bool
 structure Static (d : Dialect) (th : Thread) : Prop where
   np : ∀ t lo now, t ≤ now → NoPanic d lo now (th.restart t)
   ak : ∀ t, AllYields KOk (th.restart t)
+  rs : th.isBg = none → ∀ t, Resp1 (th.restart t)
 
 /-- a blocked thread, relative to the database `db`, the pending submissions `P`, the completion queue `Q` and the clock -/
 structure TInv (d : Dialect) (db : Db) (P : List (SubId × Subm)) (Q : List (SubId × Cpl)) (clk : Time) (th : Thread) : Prop where
   static : Static d th
+  resp : th.isBg = none → Resp1 th.co
   blocked : ∃ subs k lo now base, th.co = .yield subs k ∧ subs ≠ [] ∧ NoPanic d lo now (.yield subs k) ∧ AllYields KOk (.yield subs k) ∧
      PromMono lo db ∧ now ≤ clk ∧ th.nextSeq = base + subs.length ∧ SlotsOk (AnswerOne d lo db) base subs th.slots ∧
      (∀ e ∈ P, e.1.tid = th.tid → SubOk base subs e.1.seq e.2 ∧ e.1.seq < th.nextSeq) ∧
@@ -226,6 +227,7 @@ structure Runnable (d : Dialect) (db : Db) (P : List (SubId × Subm)) (Q : List 
   ak : AllYields KOk th.co
   pend : ∀ e ∈ P, e.1.tid = th.tid → e.1.seq < th.nextSeq
   cq : ∀ e ∈ Q, e.1.tid = th.tid → e.1.seq < th.nextSeq
+  rs : th.isBg = none → Resp1 th.co
 
 theorem run_spec (d : Dialect) (db : Db) (P : List (SubId × Subm)) (Q : List (SubId × Cpl)) (t : Time) :
     ∀ (fuel : Nat) (th : Thread), Runnable d db P Q t th →
@@ -245,8 +247,11 @@ theorem run_spec (d : Dialect) (db : Db) (P : List (SubId × Subm)) (Q : List (S
       split
       · refine ⟨?_, by intro e he; simp at he, by intro _ x hx; simp at hx⟩
         intro e he; simp only [List.mem_singleton] at he; subst he; rfl
-      · refine ⟨?_, by intro e he; simp at he, by intro hh; simp at hh⟩
-        intro e he; simp only [List.mem_singleton] at he; subst he; simp [Event.isAssert, noResp]
+      · -- a request coroutine finished without a response: excluded
+        rename_i hbg hco
+        have := h.rs hbg
+        rw [hco] at this
+        cases this
       · refine ⟨?_, by intro e he; simp at he, by intro _ x hx; simp at hx⟩
         intro e he; simp only [List.mem_singleton] at he; subst he; rfl
     · -- panic: excluded
@@ -256,22 +261,26 @@ theorem run_spec (d : Dialect) (db : Db) (P : List (SubId × Subm)) (Q : List (S
       cases this
     · -- retry
       have hr : Runnable d db P Q t { th with co := th.restart t } :=
-        ⟨⟨h.static.np, h.static.ak⟩, h.static.np t db t (Int.le_refl _), h.static.ak t, h.pend, h.cq⟩
+        ⟨⟨h.static.np, h.static.ak, h.static.rs⟩, h.static.np t db t (Int.le_refl _), h.static.ak t, h.pend, h.cq, fun hb => h.static.rs hb t⟩
       exact ih _ hr
     · rename_i subs k hco
       have hnp := h.np
       have hak := h.ak
-      rw [hco] at hnp hak
+      have hrs := h.rs
+      rw [hco] at hnp hak hrs
       split
       · -- empty yield: continue at once
         rename_i hemp
         have hs : subs = [] := by simpa using hemp
         have hr : Runnable d db P Q t { th with co := k t [] } := by
-          refine ⟨⟨h.static.np, h.static.ak⟩, ?_, ?_, h.pend, h.cq⟩
+          refine ⟨⟨h.static.np, h.static.ak, h.static.rs⟩, ?_, ?_, h.pend, h.cq, ?_⟩
           · cases hnp with
             | yield _ _ _ _ hk => exact hk t [] db (Int.le_refl _) (PromMono.refl _) (by rw [hs]; trivial)
           · cases hak with
             | yield _ _ _ hk => exact hk t []
+          · intro hb
+            cases hrs hb with
+            | yield _ _ hk => exact hk t []
         exact ih _ hr
       · rename_i hne
         have hs : subs ≠ [] := by intro h0; simp [h0] at hne
@@ -291,7 +300,7 @@ theorem run_spec (d : Dialect) (db : Db) (P : List (SubId × Subm)) (Q : List (S
         · intro _ x hx
           simp only [Option.some.injEq] at hx
           subst hx
-          refine ⟨rfl, ⟨h.static.np, h.static.ak⟩, subs, k, db, t, th.nextSeq, rfl, hs, hnp, hak, PromMono.refl _, Int.le_refl _, rfl,
+          refine ⟨rfl, ⟨h.static.np, h.static.ak, h.static.rs⟩, hrs, subs, k, db, t, th.nextSeq, rfl, hs, hnp, hak, PromMono.refl _, Int.le_refl _, rfl,
             freshSlots_ok _ _ _, ?_, ?_⟩
           · intro e he htid
             rcases List.mem_append.mp he with he | he
@@ -321,8 +330,8 @@ theorem run_tid (t : Time) : ∀ (fuel : Nat) (th : Thread) (x : Thread), (th.ru
 
 theorem tinv_pending {d : Dialect} {db : Db} {P P' : List (SubId × Subm)} {Q : List (SubId × Cpl)} {clk : Time} {th : Thread}
     (h : TInv d db P Q clk th) (hp : ∀ e ∈ P', e ∈ P ∨ e.1.tid ≠ th.tid) : TInv d db P' Q clk th := by
-  obtain ⟨hs, subs, k, lo, now, base, h1, h2, h3, h4, h5, h6, h7, h8, h9, h10⟩ := h
-  refine ⟨hs, subs, k, lo, now, base, h1, h2, h3, h4, h5, h6, h7, h8, ?_, h10⟩
+  obtain ⟨hs, hrs, subs, k, lo, now, base, h1, h2, h3, h4, h5, h6, h7, h8, h9, h10⟩ := h
+  refine ⟨hs, hrs, subs, k, lo, now, base, h1, h2, h3, h4, h5, h6, h7, h8, ?_, h10⟩
   intro e he htid
   rcases hp e he with h | h
   · exact h9 e h htid
@@ -467,8 +476,8 @@ theorem runAll_spec (d : Dialect) (db : Db) (Q : List (SubId × Cpl)) (t : Time)
 
 theorem tinv_weaken {d : Dialect} {db : Db} {P : List (SubId × Subm)} {Q Q' : List (SubId × Cpl)} {clk clk' : Time} {th : Thread}
     (h : TInv d db P Q clk th) (hq : ∀ e ∈ Q', e ∈ Q) (hc : clk ≤ clk') : TInv d db P Q' clk' th := by
-  obtain ⟨hs, subs, k, lo, now, base, h1, h2, h3, h4, h5, h6, h7, h8, h9, h10⟩ := h
-  exact ⟨hs, subs, k, lo, now, base, h1, h2, h3, h4, h5, Int.le_trans h6 hc, h7, h8, h9, fun e he => h10 e (hq e he)⟩
+  obtain ⟨hs, hrs, subs, k, lo, now, base, h1, h2, h3, h4, h5, h6, h7, h8, h9, h10⟩ := h
+  exact ⟨hs, hrs, subs, k, lo, now, base, h1, h2, h3, h4, h5, Int.le_trans h6 hc, h7, h8, h9, fun e he => h10 e (hq e he)⟩
 
 theorem tinv_fill {d : Dialect} {db : Db} {P : List (SubId × Subm)} {Q : List (SubId × Cpl)} {clk : Time} {th : Thread}
     (h : TInv d db P Q clk th) (dc : SubId × Cpl) (hdc : dc ∈ Q) :
@@ -476,8 +485,8 @@ theorem tinv_fill {d : Dialect} {db : Db} {P : List (SubId × Subm)} {Q : List (
   split
   · rename_i htid
     have htid' : dc.1.tid = th.tid := by simpa using (beq_iff_eq.mp htid).symm
-    obtain ⟨hs, subs, k, lo, now, base, h1, h2, h3, h4, h5, h6, h7, h8, h9, h10⟩ := h
-    refine ⟨⟨hs.np, hs.ak⟩, subs, k, lo, now, base, h1, h2, h3, h4, h5, h6, h7, ?_, h9, h10⟩
+    obtain ⟨hs, hrs, subs, k, lo, now, base, h1, h2, h3, h4, h5, h6, h7, h8, h9, h10⟩ := h
+    refine ⟨⟨hs.np, hs.ak, hs.rs⟩, hrs, subs, k, lo, now, base, h1, h2, h3, h4, h5, h6, h7, ?_, h9, h10⟩
     exact slotsOk_fill dc.1.seq dc.2 subs base th.slots h8 (h10 dc hdc htid').1
   · exact h
 
@@ -516,7 +525,7 @@ theorem resume_tid (th th' : Thread) (t : Time) (h : th.resume? t = some th') : 
 
 theorem resume_runnable {d : Dialect} {db : Db} {P : List (SubId × Subm)} {Q : List (SubId × Cpl)} {clk t : Time} {th th' : Thread}
     (h : TInv d db P Q clk th) (hc : clk ≤ t) (hr : th.resume? t = some th') : Runnable d db P Q t th' := by
-  obtain ⟨hs, subs, k, lo, now, base, h1, h2, h3, h4, h5, h6, h7, h8, h9, h10⟩ := h
+  obtain ⟨hs, hrs, subs, k, lo, now, base, h1, h2, h3, h4, h5, h6, h7, h8, h9, h10⟩ := h
   unfold Thread.resume? at hr
   split at hr
   · cases hr
@@ -529,12 +538,17 @@ theorem resume_runnable {d : Dialect} {db : Db} {P : List (SubId × Subm)} {Q : 
         rw [h1] at hco
         injection hco with e1 e2
         subst e1; subst e2
-        refine ⟨⟨hs.np, hs.ak⟩, ?_, ?_, fun e he ht => (h9 e he ht).2, fun e he ht => (h10 e he ht).2⟩
+        refine ⟨⟨hs.np, hs.ak, hs.rs⟩, ?_, ?_, fun e he ht => (h9 e he ht).2, fun e he ht => (h10 e he ht).2, ?_⟩
         · cases h3 with
           | yield _ _ _ _ hk =>
             exact hk t _ db (Int.le_trans h6 hc) h5 (answers'_eq d lo db _ _ (slotsOk_answers subs base th.slots h8 hall))
         · cases h4 with
           | yield _ _ _ hk => exact hk t _
+        · intro hb
+          have := hrs hb
+          rw [h1] at this
+          cases this with
+          | yield _ _ hk => exact hk t _
       · cases hr
     · cases hr
 
@@ -645,14 +659,14 @@ theorem kinv_tick (d : Dialect) (s : Sys) (clk t : Time) (hbg : BgOk d s.env) (h
       have hst : Static d th := by
         rcases List.mem_append.mp hth with hb | hr
         · obtain ⟨tid, k, rfl⟩ := startBg_new _ _ _ _ _ _ _ th hb
-          exact ⟨fun t' lo now hle => hbg k t' lo now hle, fun t' => ak_bg s.env k t'⟩
+          exact ⟨fun t' lo now hle => hbg k t' lo now hle, fun t' => ak_bg s.env k t', fun hb => by cases hb⟩
         · obtain ⟨q, hq, rfl⟩ := (startReqs_new _ _ _ _).1 th hr
-          exact ⟨fun t' lo now _ => h.apiQ q (List.mem_of_mem_take hq) t t' lo now, fun t' => ak_req s.env q.2 t t'⟩
+          exact ⟨fun t' lo now _ => h.apiQ q (List.mem_of_mem_take hq) t t' lo now, fun t' => ak_req s.env q.2 t t', fun _ t' => rs_req s.env q.2 t t'⟩
       have hco : th.co = .retry ∧ True := by
         rcases List.mem_append.mp hth with hb | hr
         · obtain ⟨tid, k, rfl⟩ := startBg_new _ _ _ _ _ _ _ th hb; exact ⟨rfl, trivial⟩
         · obtain ⟨q, hq, rfl⟩ := (startReqs_new _ _ _ _).1 th hr; exact ⟨rfl, trivial⟩
-      refine ⟨hst, by rw [hco.1]; exact .retry _ _, by rw [hco.1]; exact .retry, ?_, ?_⟩
+      refine ⟨hst, by rw [hco.1]; exact .retry _ _, by rw [hco.1]; exact .retry, ?_, ?_, by intro _; rw [hco.1]; exact .retry⟩
       · intro e he htid; exact absurd htid (hfresh.2.1 e he)
       · intro e he htid; exact absurd htid (hfresh.2.2 e (hdrop e he))
     -- 3. candidates
@@ -677,7 +691,7 @@ theorem kinv_tick (d : Dialect) (s : Sys) (clk t : Time) (hbg : BgOk d s.env) (h
         | some th' =>
           simp only [hr]
           have := resume_runnable (hd.1 th hth) hclk hr
-          exact ⟨this.static, this.np, this.ak, this.pend, fun e he => this.cq e (hdrop e he)⟩
+          exact ⟨this.static, this.np, this.ak, this.pend, fun e he => this.cq e (hdrop e he), this.rs⟩
       · simp only [List.mem_map] at hc
         obtain ⟨th, hth, rfl⟩ := hc
         exact hnewR th hth
@@ -731,8 +745,8 @@ theorem tinv_step_db {d : Dialect} {db db' : Db} {P P' : List (SubId × Subm)} {
     (h : TInv d db P Q clk th) (hm : PromMono db db') (hp : ∀ e ∈ P', e ∈ P)
     (hq : ∀ e ∈ Q', e ∈ Q ∨ ∃ sub, (e.1, sub) ∈ P ∧ ∀ lo, PromMono lo db → AnswerOne d lo db' sub e.2) :
     TInv d db' P' Q' clk th := by
-  obtain ⟨hs, subs, k, lo, now, base, h1, h2, h3, h4, h5, h6, h7, h8, h9, h10⟩ := h
-  refine ⟨hs, subs, k, lo, now, base, h1, h2, h3, h4, h5.trans hm, h6, h7,
+  obtain ⟨hs, hrs, subs, k, lo, now, base, h1, h2, h3, h4, h5, h6, h7, h8, h9, h10⟩ := h
+  refine ⟨hs, hrs, subs, k, lo, now, base, h1, h2, h3, h4, h5.trans hm, h6, h7,
     slotsOk_mono (fun s c hsc => answerOne_mono hm hsc) _ _ _ h8, fun e he => h9 e (hp e he), ?_⟩
   intro e he htid
   rcases hq e he with hold | ⟨sub, hsub, hans⟩
